@@ -82,6 +82,9 @@ type Machine struct {
 	schedTrace      []string
 	hookTrace       []string // every schedule-hook event of a named thread, in order: "thread|point"
 	hookOnly        bool     // preemptions are offered at schedule hooks only (natively enforceable)
+	atomicPoints    bool     // ... and before every sync/atomic operation (natively enforced through a source overlay)
+	callPos         token.Pos
+	callFrame       *frame
 
 	// per-path bookkeeping
 	events     []event // Reach / Assert / Observe in program order
@@ -677,6 +680,7 @@ func (m *Machine) visitInstr(fr *frame, instr ssa.Instruction) continuation {
 		fr.set(instr, m.binop(instr.Op, instr.X.Type(), fr.get(instr.X), fr.get(instr.Y)))
 	case *ssa.Call:
 		fn, args := m.prepareCall(fr, &instr.Call)
+		m.callPos, m.callFrame = instr.Pos(), fr
 		fr.set(instr, m.call(fr, fn, args))
 	case *ssa.ChangeInterface:
 		fr.set(instr, fr.get(instr.X))
